@@ -1,4 +1,6 @@
 """C16 - bytes from peers can be rejected but never crash the node or forge a block (structural necessary conditions)."""
+import re
+
 import kinds as K
 
 CRATES = ["ckb_network", "ckb_sync"]
@@ -265,6 +267,76 @@ def run(F, S, R, tier):
                    crates=["ckb_sync", "ckb_network", "ckb_light_client_protocol_server", "ckb_network_alert", "ckb_block_filter"], min_sites=3,
                    what="peer-facing crates never construct an unchecked molecule reader (a malformed field would panic in an accessor)")
     R.guard("whocalls/unchecked-decoders", unchecked_everywhere)
+
+    # ---------------------------------------------------------------- 6. defects F11-F13 (fixed): strict re-verification, pending index range, offset median
+    def strict_blocks():
+        """F11: compatible verification never looks inside extra fields; a received block / compact block must be re-verified strictly
+        (as Block or BlockV1) before anything processes it."""
+        for who, strict, proc in (("Synchronizer", r"generated::blockchain::Block(V1)?Reader<'r> as molecule::prelude::Reader<'r>>::verify$|BlockV1Reader.*::verify$|BlockReader.*::verify$",
+                                   r"Synchronizer::process$"),
+                                  ("Relayer", r"CompactBlock(V1)?Reader<'r> as molecule::prelude::Reader<'r>>::verify$|CompactBlockV1Reader.*::verify$|CompactBlockReader.*::verify$", r"Relayer::process$|Relayer::try_process$")):
+            key = "mustcall/strict-block/%s" % who
+            rc = [b for b in F.bodies_of_crate("ckb_sync") if b.kind != "Fn" and re.search(r"%s as ckb_network::protocols::CKBProtocolHandler>::received::\{closure#0\}$" % who, b.path)]
+            if not rc:
+                R.bad(key + "/anchor-lost", "%s::received not found" % who, [])
+                continue
+            b = rc[0]
+            R.fn(b)
+            hits = S.hit_blocks(b, K.pats([strict]), 2)
+            verifies = []
+            for c in b.calls:
+                if c.bb in hits:
+                    # strict = second argument `compatible` is the literal false, here or in the helper
+                    verifies.append(c)
+            procs = b.calls_to(proc)
+            R.sites += len(verifies) + len(procs)
+            if not procs:
+                R.bad(key + "/anchor-lost", "%s::received no longer hands the message to try_process" % who, [b.where()])
+            elif verifies and all(any(b.dominates(v.bb, p.bb) or v.bb in set(b.reachable(0)) - set(b.reachable(p.target or p.bb)) for v in verifies) for p in procs):
+                strict_ok = False
+                for v in verifies:
+                    for cb in [b] + S.callee_bodies(v):
+                        for c2 in cb.calls:
+                            if re.search(r"::verify$", c2.callee) and len(c2.args) == 2 and c2.args[1].get("v") in (0, "0", False, "false"):
+                                strict_ok = True
+                (R.ok if strict_ok else R.bad)(key, ("%s::received re-verifies the block strictly (compatible = false) before processing it" % who) if strict_ok else
+                                              ("%s::received verifies the block only in compatible mode: extra fields are never inspected" % who), [verifies[0].where()])
+            else:
+                R.bad(key, "%s::received processes a block that was only verified in compatible mode: a junk extension field or an extra field in a nested table "
+                      "(uncle) reaches accessors that unwrap (remote panic / poisoned store)" % who, [procs[0].where()])
+    R.guard("mustcall/strict-block", strict_blocks)
+
+    def pending_index():
+        """F12: the indexes of a BlockTransactions reply were computed from the replying peer's compact block, the pending compact block may be
+        another peer's: an index must be range-checked against the pending block, never `.expect`ed."""
+        v = F.one("ckb_sync", r"BlockTransactionsVerifier::verify$")
+        bodies = K.with_nested(v)
+        R.fn(v)
+        exps = [c for x in bodies for c in x.calls if re.search(r"Option::<.*>::(expect|unwrap)$", c.callee)]
+        lens = [s_ for x in bodies for s_ in K.cmp_sites(x) if K.src_match(x.operand_sources(s_.a) | x.operand_sources(s_.b), [r"call:.*::len$"]) and
+                K.src_match(x.operand_sources(s_.a) | x.operand_sources(s_.b), [r"param:indexes|^param:2$|call:.*Iterator::find$|call:.*::iter$"])]
+        R.sites += len(exps) + len(lens)
+        if exps:
+            R.bad("reqerr/pending-index", "BlockTransactionsVerifier::verify unwraps a lookup into the pending compact block: an index computed from another peer's layout panics the relay handler", [exps[0].where()])
+        elif lens:
+            R.ok("reqerr/pending-index", "indexes are range-checked against the pending compact block and nothing is unwrapped", ["%s:%s" % (v.file, lens[0].line)])
+        else:
+            R.bad("reqerr/pending-index", "BlockTransactionsVerifier::verify does not compare the reply's indexes with the length of the pending compact block", [v.where()])
+    R.guard("reqerr/pending-index", pending_index)
+
+    def median():
+        """F13: peer-supplied offsets are summed: the sum must not be taken in i64."""
+        m = F.one("ckb_sync", r"NetTimeChecker::median_offset$")
+        R.fn(m)
+        locs = m.rec.get("locals") or []
+        adds = [(st, locs[st[0][0]] if st[0][0] < len(locs) else "?") for blk in m.blocks for st in blk["s"] if st[1].get("k") == "bin" and st[1]["op"].startswith("Add")]
+        narrow = [a for a in adds if re.search(r"\bi64\b|\bu64\b", str(a[1]))]
+        R.sites += len(adds)
+        if narrow:
+            R.bad("affine/median-no-overflow", "median_offset adds two peer-supplied i64 offsets in 64 bits: with overflow checks on, a peer can panic the time handler", ["%s:%s" % (m.file, narrow[0][0][2])])
+        else:
+            R.ok("affine/median-no-overflow", "the two middle samples are added in a wider type (or not at all)", [m.where()])
+    R.guard("affine/median-no-overflow", median)
 
 
 def _mentions(rv, local):
